@@ -15,8 +15,20 @@ extern unsigned cqv_mc_calls;
 /* ---- ghost: an arbitrary row index (stands for "for all rows") ---- */
 size_t cqv_j;
 
+/* Reachability canaries only need SOME execution through a point, so the vacuity build (and the
+ * jobs marked level='bounded' via -DCQV_SMALL) keeps buffer sizes small: cbmc's json trace of a
+ * havoc_slice / malloc with a huge symbolic size exhausts memory.  The proof build is unbounded. */
+#if defined(CQV_CANARIES) || defined(CQV_SMALL)
+#define CQV_SMALL_ASSUME(c) __CPROVER_assume(c)
+#define CQV_SMALL_PAGE(r) ((r)->page_num_values <= 8)
+#else
+#define CQV_SMALL_ASSUME(c) ((void)0)
+#define CQV_SMALL_PAGE(r) 1
+#endif
+
 /* ---- specification macros ---- */
 #define CQV_MIN(a, b) ((a) < (b) ? (a) : (b))
+#define CQV_MAX0(a) ((a) > 0 ? (a) : 0)
 /* value size per physical type: this is the documented buffer sizing rule of carquet.h
  * (carquet_column_read_batch, "Value Buffer Sizing"), not a copy of the code */
 #define CQV_VSZ_T(t, tl) \
@@ -25,12 +37,13 @@ size_t cqv_j;
    ((t) == CARQUET_PHYSICAL_INT64 || (t) == CARQUET_PHYSICAL_DOUBLE) ? (size_t)8 : \
    (t) == CARQUET_PHYSICAL_INT96 ? (size_t)12 : \
    (t) == CARQUET_PHYSICAL_BYTE_ARRAY ? sizeof(carquet_byte_array_t) : (size_t)(tl))
-#define CQV_VSZ(r) CQV_VSZ_T((r)->type, (r)->type_length)
 /* case split over the physical type (one job per case; default: all types in one job) */
 #ifdef CQV_TYPE
 #define CQV_TYPE_CASE(t) ((int)(t) == CQV_TYPE)
+#define CQV_VSZ(r) CQV_VSZ_T(CQV_TYPE, (r)->type_length)
 #else
 #define CQV_TYPE_CASE(t) 1
+#define CQV_VSZ(r) CQV_VSZ_T((r)->type, (r)->type_length)
 #endif
 #ifndef CQV_TL_MAX
 #define CQV_TL_MAX (1 << 24)   /* FIXED_LEN_BYTE_ARRAY length bound also used by batch_reader.c */
@@ -39,8 +52,9 @@ size_t cqv_j;
 #define CQV_NP_MAXV ((int64_t)INT32_MAX)   /* requests above INT32_MAX: separate job (truncation) */
 #endif
 #ifndef CQV_PAGE_MAX
-#define CQV_PAGE_MAX (1 << 30)   /* header / compressed page sizes; INT32_MAX: separate job */
+#define CQV_PAGE_MAX (1 << 30)   /* compressed page size; INT32_MAX: separate job */
 #endif
+#define CQV_HDR_MAX (1 << 20)    /* serialized page header size */
 /* facts fixed at column-reader creation for a valid file */
 #define CQV_RD_STATIC(r) \
   ((int)(r)->type >= 0 && (int)(r)->type <= 7 && (r)->type_length >= 0 && (r)->type_length <= CQV_TL_MAX && \
@@ -49,14 +63,35 @@ size_t cqv_j;
 /* state of a loaded page */
 #define CQV_PAGE_INV(r) \
   ((r)->page_num_values >= 0 && (r)->page_values_read >= 0 && (r)->page_values_read <= (r)->page_num_values && \
-   (r)->page_header_size >= 0 && (r)->page_header_size <= CQV_PAGE_MAX && \
+   (r)->page_header_size >= 0 && (r)->page_header_size <= CQV_HDR_MAX && \
    (r)->page_compressed_size >= 0 && (r)->page_compressed_size <= CQV_PAGE_MAX && \
    (int64_t)((r)->page_num_values - (r)->page_values_read) <= (r)->values_remaining && \
+   (r)->current_page + (r)->page_header_size + (r)->page_compressed_size <= (int64_t)CQV_MAXBUF && \
    (size_t)(r)->page_num_values * CQV_VSZ(r) <= CQV_MAXBUF)
+/* scalar part of the reader invariant */
+#define CQV_RD_INV(r) \
+  (CQV_TYPE_CASE((r)->type) && CQV_RD_STATIC(r) && (r)->values_remaining >= 0 && (r)->current_page >= 0 && \
+   (r)->current_page <= (int64_t)CQV_MAXBUF && (!(r)->page_loaded || CQV_PAGE_INV(r)))
+#define CQV_RD_BUF_V(r) (!CQV_PAGE_LIVE(r) || __CPROVER_r_ok((r)->decoded_values, (size_t)(r)->page_num_values * CQV_VSZ(r)))
+#define CQV_RD_BUF_D(r) (!CQV_PAGE_LIVE(r) || __CPROVER_r_ok((r)->decoded_def_levels, (size_t)(r)->page_num_values * sizeof(int16_t)))
+#define CQV_RD_BUF_R(r) (!CQV_PAGE_LIVE(r) || __CPROVER_r_ok((r)->decoded_rep_levels, (size_t)(r)->page_num_values * sizeof(int16_t)))
 #define CQV_PAGE_LIVE(r) ((r)->page_loaded && (r)->page_values_read < (r)->page_num_values)
 /* only inside ensures clauses of carquet_read_next_page */
 #define CQV_FRESHPAGE (!__CPROVER_old(reader->page_loaded) || __CPROVER_old(reader->page_values_read) >= __CPROVER_old(reader->page_num_values))
 #define CQV_START ((int64_t)(CQV_FRESHPAGE ? 0 : __CPROVER_old(reader->page_values_read)))
+
+/* C02, dense delivery across calls (necessary condition, ghost witness row cqv_j): if a row before
+ * `start` is null, the value source lies strictly before start*value_size.  Checked by the
+ * jobs c02_next_page_dense_* (-DCQV_CHECK_DENSE); the other next_page jobs carry the rest. */
+#ifdef CQV_CHECK_DENSE
+#define CQV_DENSE_WITNESS_POST \
+  ((__CPROVER_return_value == CARQUET_OK && __CPROVER_old(cqv_mc_calls) == 0 && reader->max_def_level > 0 && *values_read > 0 && \
+    cqv_j < (size_t)CQV_START && reader->decoded_def_levels[cqv_j] < reader->max_def_level) ==> \
+   (__CPROVER_POINTER_OFFSET(cqv_mc_src[0]) >= 0 && \
+    (size_t)__CPROVER_POINTER_OFFSET(cqv_mc_src[0]) + CQV_VSZ(reader) <= (size_t)CQV_START * CQV_VSZ(reader)))
+#else
+#define CQV_DENSE_WITNESS_POST 1
+#endif
 
 #include "src/reader/page_reader.c"
 #include "src/reader/column_reader.c"
@@ -67,11 +102,13 @@ size_t cqv_j;
 static carquet_column_reader_t *mk_reader(void) {
   carquet_column_reader_t *r = malloc(sizeof(*r));   /* contents arbitrary */
   __CPROVER_assume(r != NULL);
-  __CPROVER_assume(CQV_TYPE_CASE(r->type) && CQV_RD_STATIC(r));
-  __CPROVER_assume(r->values_remaining >= 0 && r->current_page >= 0 && r->current_page <= (int64_t)CQV_MAXBUF);
+#ifdef CQV_TYPE
+  r->type = (carquet_physical_type_t)CQV_TYPE;
+#endif
   r->page_loaded = nondet_bool();
+  __CPROVER_assume(CQV_RD_INV(r));
   if (r->page_loaded) {
-    __CPROVER_assume(CQV_PAGE_INV(r));
+    CQV_SMALL_ASSUME(CQV_SMALL_PAGE(r));
     size_t n = (size_t)r->page_num_values;
     r->decoded_values = malloc(n * CQV_VSZ(r));
     r->decoded_def_levels = malloc(n * sizeof(int16_t));
@@ -90,6 +127,7 @@ void h_next_page(void) {
   carquet_column_reader_t *r = nondet_bool() ? mk_reader() : NULL;
   int64_t max_values = nondet_i64();
   __CPROVER_assume(max_values >= 0 && max_values <= CQV_NP_MAXV);
+  CQV_SMALL_ASSUME(max_values <= 8);
   size_t vs = r ? CQV_VSZ(r) : 1;
   __CPROVER_assume((size_t)max_values * vs <= CQV_MAXBUF);
   void *values = nondet_bool() ? malloc((size_t)max_values * vs) : NULL;
@@ -99,9 +137,48 @@ void h_next_page(void) {
   carquet_error_t *err = nondet_bool() ? malloc(sizeof(carquet_error_t)) : NULL;
   cqv_mc_calls = 0;
   cqv_j = nondet_size_t();
+  /* counterexample inputs for the native replayer (replay/direct/colreader_next_page_dense.c) */
+  _Bool cex_live = r && r->page_loaded, cex_w = cex_live && cqv_j < (size_t)r->page_values_read;
+  int64_t cex_pnv = cex_live ? r->page_num_values : 0;
+  int64_t cex_start = cex_live ? r->page_values_read : 0;
+  int64_t cex_maxdef = cex_live ? r->max_def_level : 0;
+  int64_t cex_maxv = max_values;
+  int64_t cex_j = cex_w ? (int64_t)cqv_j : 0;
+  int64_t cex_defj = cex_w ? r->decoded_def_levels[cqv_j] : 0;
   carquet_status_t st = carquet_read_next_page(r, values, max_values, def, rep, nread, err);
   CQV_CANARY("next_page returns");
   if (st == CARQUET_OK) CQV_CANARY("next_page can succeed");
   if (st == CARQUET_OK && *nread > 0 && r->max_def_level > 0 && r->page_values_read > *nread) CQV_CANARY("next_page continues a nullable page");
   if (st != CARQUET_OK) CQV_CANARY("next_page can fail");
+}
+
+/* carquet_column_read_batch against its contract; carquet_read_next_page replaced by its contract */
+void h_read_batch(void) {
+  carquet_column_reader_t *r = mk_reader();
+  int64_t max_values = nondet_i64();
+  __CPROVER_assume(max_values <= CQV_NP_MAXV);
+  CQV_SMALL_ASSUME(max_values <= 8);
+  size_t vs = CQV_VSZ(r);
+  size_t cnt = max_values > 0 ? (size_t)max_values : 0;
+  __CPROVER_assume(cnt * vs <= CQV_MAXBUF);
+  /* restriction of this harness: all three output buffers are present (cbmc 6.11 accepts neither
+   * conditional nor ternary targets in the loop assigns clause, so NULL level buffers are not covered) */
+  void *values = malloc(cnt * vs);
+  int16_t *def = malloc(cnt * sizeof(int16_t));
+  int16_t *rep = malloc(cnt * sizeof(int16_t));
+  int64_t got = carquet_column_read_batch(r, values, max_values, def, rep);
+  CQV_CANARY("read_batch returns");
+  if (got > 0) CQV_CANARY("read_batch can deliver rows");
+  if (got == -1) CQV_CANARY("read_batch can fail");
+  if (got > 0 && got < max_values && r->values_remaining > 0) CQV_CANARY("read_batch can return short");
+}
+
+/* carquet_column_skip against its contract; carquet_column_read_batch replaced by its contract */
+void h_skip(void) {
+  carquet_column_reader_t *r = mk_reader();
+  int64_t n = nondet_i64();
+  int64_t got = carquet_column_skip(r, n);
+  CQV_CANARY("skip returns");
+  if (got > 0) CQV_CANARY("skip can skip rows");
+  if (got > 1024) CQV_CANARY("skip can take more than one chunk");
 }
